@@ -629,13 +629,42 @@ inline void check_partition(const Case& c, const std::vector<HostDump>& H,
         o << " (" << std::get<0>(kv.first) << ">" << std::get<1>(kv.first)
           << " w=" << std::get<2>(kv.first) << ") not in input, partitions x"
           << kv.second << ";";
-    // classify: structure only vs data
+    // classify.  (1) structure only vs data.  (2) One defect has a signature
+    // of its own and gets a policy-independent key so that recording it can
+    // never hide another edge-multiset bug: nothing is missing and every
+    // surplus edge, seen in the orientation of the FILE that was read, goes
+    // to node 0 from a node that has no edges in that file (a host whose
+    // read range holds no edges fabricates them: BufferedGraph::edgeBegin of
+    // its first node is 0 instead of the range's edge offset, and
+    // edgeDestination() answers 0 for a host without edges).
     std::map<std::pair<uint64_t, uint64_t>, long> ws, gs;
     for (auto& kv : want)
       ws[{std::get<0>(kv.first), std::get<1>(kv.first)}] += kv.second;
     for (auto& kv : got)
       gs[{std::get<0>(kv.first), std::get<1>(kv.first)}] += kv.second;
-    r.fail(K(ws == gs ? "edge-data-wrong" : "edge-multiset-differs"),
+    const bool fileReversed = !c.sym && c.in == "csc";
+    std::vector<uint64_t> fileOutDeg(n, 0);
+    for (auto& e : c.edges)
+      fileOutDeg[fileReversed ? e.d : e.s]++;
+    bool phantom = true, anySurplus = false;
+    for (auto& kv : ws)
+      if ((gs.count(kv.first) ? gs[kv.first] : 0) < kv.second)
+        phantom = false; // something is missing
+    for (auto& kv : gs) {
+      long w = ws.count(kv.first) ? ws[kv.first] : 0;
+      if (kv.second <= w)
+        continue;
+      anySurplus   = true;
+      uint64_t fs = fileReversed ? kv.first.second : kv.first.first;
+      uint64_t fd = fileReversed ? kv.first.first : kv.first.second;
+      if (fd != 0 || fileOutDeg[fs] != 0)
+        phantom = false;
+    }
+    std::string key =
+        (phantom && anySurplus)
+            ? std::string("cusp:edgeless-read-range:phantom-edges-to-node-0")
+            : K(ws == gs ? "edge-data-wrong" : "edge-multiset-differs");
+    r.fail(key,
            "union of the local edge lists differs from the input:%s %s; %s",
            o.str().c_str(), cx, hosts_str(H).c_str());
   }
